@@ -42,7 +42,7 @@ def reorder_cut(ctx, prog):
         c = callee(ins)
         if c.startswith('llvm.memcpy'):
             d, s = memcpy_dst_src(P, ins)
-            if d == 'A:ord' and 'order_q.root' in (s or ''):
+            if d == 'A:' + expandrules.ord_local(prog) and 'order_q.root' in (s or ''):
                 st['facts']['committed'] = True
                 events.append(('commit', ins, dict(st['facts'])))
         elif c in ('sink_write_buffer', 'failf'):
@@ -122,6 +122,8 @@ def can_reorder_rule(ctx, prog):
 def order_feed(ctx, prog):
     """(a) who writes order_q and with which position"""
     exp = prog.module('expand')
+    HEAD = 'A:' + expandrules.head_local(prog)
+    ORD = 'A:' + expandrules.ord_local(prog)
     writers = {}
     for f in exp.funcs.values():
         P = Prov(prog, f)
@@ -142,17 +144,17 @@ def order_feed(ctx, prog):
     for i in f.insns():
         if i.op == 'call' and callee(i).startswith('llvm.memcpy'):
             d, s = memcpy_dst_src(P, i)
-            if d in ('A:head_blk', 'A:head_blk.base') and s in ('G:expand:parser_bs', 'G:expand:parser_bs.pos'):
+            if d in (HEAD, HEAD + '.base') and s in ('G:expand:parser_bs', 'G:expand:parser_bs.pos'):
                 sz = strip_casts(P.expr(i.ops[2]))
                 if sz == ('const', 16):
                     base_sets.append(i)
-    ok = len(pushes) == 1 and pushes[0][1] == 'A:head_blk' and any(
+    ok = len(pushes) == 1 and pushes[0][1] == HEAD and any(
         cfg.insn_dominates(f, b, pushes[0][0], dom) for b in base_sets)
     # nothing may overwrite head_blk.base between that copy and the push
     between = []
     if ok:
         for i in f.insns():
-            if i.op == 'store' and addr_key(P.addr(i.ops[1])).startswith('A:head_blk.base'):
+            if i.op == 'store' and addr_key(P.addr(i.ops[1])).startswith(HEAD + '.base'):
                 between.append(f.loc(i))
     ctx.ob('C10.order_feed', 'the position pushed on order_q is the parser\'s own (head_blk.base = parser_bs.pos)',
            f.loc(pushes[0][0]) if pushes else f.loc(), ok and not between, 'copies: %d, other stores: %s' % (
@@ -161,13 +163,13 @@ def order_feed(ctx, prog):
     r = prog.func('expand', 'do_reorder')
     Pr = Prov(prog, r)
     ws = writers.get('do_reorder', [])
-    okr = len(ws) == 1 and ws[0][1] == 'A:ord'
-    st = [i for i in r.insns() if i.op == 'store' and addr_key(Pr.addr(i.ops[1])).startswith('A:ord')]
-    okm = len(st) == 1 and addr_key(Pr.addr(st[0].ops[1])) == 'A:ord.base.minor'
+    okr = len(ws) == 1 and ws[0][1] == ORD
+    st = [i for i in r.insns() if i.op == 'store' and addr_key(Pr.addr(i.ops[1])).startswith(ORD)]
+    okm = len(st) == 1 and addr_key(Pr.addr(st[0].ops[1])) == ORD + '.base.minor'
     if okm:
         v = strip_casts(Pr.expr(st[0].ops[0]))
         okm = v[0] == 'bin' and v[1] == 'add' and strip_casts(v[3]) == ('const', 1) and \
-            _load_key(v[2]) == 'A:ord.base.minor'
+            _load_key(v[2]) == ORD + '.base.minor'
     ctx.ob('C10.order_feed', 'do_reorder() re-inserts the same head with minor+1 (continuation of a block that '
            'needed more output space)', r.loc(ws[0][0]) if ws else r.loc(), okr and okm, '')
 
